@@ -137,7 +137,7 @@ Parse(s, e) ==
     LET lb == Pos(s, 91)  rb == Pos(s, 93)
         hasUse == lb # {}
         u == IF hasUse THEN AvLeast(lb) ELSE Len(s) + 1
-        useShape == ~hasUse \/ (Cardinality(lb) = 1 /\ rb = {Len(s)} /\ u < Len(s) - 0)
+        useShape == ~hasUse \/ (Cardinality(lb) = 1 /\ rb = {Len(s)})
         body == Cut(s, u + 1, Len(s) - 1)
         items == IF hasUse /\ useShape THEN Pieces(body, Pos(body, 44)) ELSE {}
         rest == Cut(s, 1, u - 1)
